@@ -3,6 +3,7 @@ package runner
 import (
 	"encoding/json"
 	"hash/fnv"
+	"os"
 	"sort"
 	"sync/atomic"
 	"time"
@@ -28,6 +29,30 @@ type Stats struct {
 	curFault *scen.Fault
 	curMode  string
 	progress atomic.Int64
+	inflight *os.File
+}
+
+// InFlight records, outside the process (a file the parent reads if this
+// process dies), the scenario about to be executed. Used by properties whose
+// failure mode kills the process.
+func (s *Stats) InFlight(sc any) {
+	if s.inflight == nil {
+		path := os.Getenv("VERIF_INFLIGHT_FILE")
+		if path == "" {
+			return
+		}
+		f, err := os.OpenFile(path, os.O_CREATE|os.O_WRONLY|os.O_TRUNC, 0o644)
+		if err != nil {
+			return
+		}
+		s.inflight = f
+	}
+	b, err := json.Marshal(sc)
+	if err != nil {
+		return
+	}
+	_ = s.inflight.Truncate(0)
+	_, _ = s.inflight.WriteAt(b, 0)
 }
 
 // Doing tells the watchdog which concrete fault / reader mode is being run.
